@@ -980,7 +980,18 @@ func (g *gen) contentPiece(depth int) {
 		g.text()
 		g.feat("content_of")
 		g.frames = 0
-		g.tag("<%=", `contentOf("`+name+`", {"label": `+g.expr(kStr, 1, "hash-value")+"})", "%>")
+		if g.pct("cofdefault", 30) {
+			// contentOf of a DEFINED block, called with a default block as well
+			g.feat("content_of_defined_with_default")
+			g.tag("<%=", `contentOf("`+name+`", {"label": `+g.expr(kStr, 1, "hash-value")+"}) {", "%>")
+			g.nl()
+			sc := g.pushScope()
+			g.pieces(depth-1, 1)
+			g.popScope(sc)
+			g.tag("<%", "}", "%>")
+		} else {
+			g.tag("<%=", `contentOf("`+name+`", {"label": `+g.expr(kStr, 1, "hash-value")+"})", "%>")
+		}
 		if g.pct("again", 30) {
 			g.nl()
 			g.frames = 0
